@@ -16,6 +16,7 @@ type SpanCase struct {
 	Text      string `json:"text"`
 	Want      []Span `json:"want"`
 	CheckVars bool   `json:"check_vars"`
+	File      bool   `json:"file,omitempty"` // the text is searched as a file (RunFiles, NOTHING)
 }
 
 const vmLimitModel = 400_000
@@ -32,7 +33,7 @@ func checkSpanCase(c SpanCase) (sig string, what string, discard bool) {
 	if err != nil {
 		return "compile-error", "generated program does not compile: " + firstLine(err.Error()), false
 	}
-	res := RunSafe(v, c.Text, vmLimitModel)
+	res := runTextOrFile(v, c.Text, c.File, vmLimitModel)
 	lastSpanCaseSteps = res.Steps
 	if res.OverBudget {
 		return "", "", true
